@@ -24,6 +24,8 @@ def eval_args(ex, node: ast.Call, st):
 
 def do_call(ex: Exec, node: ast.Call, st: State):
     f = node.func
+    if isinstance(f, ast.Name) and f.id == "cast" and len(node.args) == 2 and "cast" not in st.env:
+        return ex.eval(node.args[1], st)  # typing.cast(T, x) is the identity at run time; T is not evaluated
     if isinstance(f, ast.Name) and f.id == "implies" and len(node.args) == 2 and "implies" not in st.env:
         a = ex.truth(ex.eval(node.args[0], st))
         if z3.is_false(z3.simplify(a)):
@@ -134,6 +136,8 @@ def coerce(ex, v, sort, st):
         if isinstance(v, VOpt):
             return VOpt(v.isnone, coerce(ex, v.val, sort.inner, st))
         return VOpt(z3.BoolVal(False), coerce(ex, v, sort.inner, st))
+    if isinstance(sort, S.Dict) and isinstance(v, VTBDict) and z3.is_false(z3.simplify(v.has)):
+        return VDict(S.EMPTY_SET, z3.K(S.PyStr, z3.RealVal(0)), sort.val)  # `{}` of a str->number dict
     if isinstance(v, VOpt) and not isinstance(sort, S.Opt):
         v = v.val  # Optional actual for a non-optional formal: the caller guards with `is not None`
     if isinstance(sort, S.Seq) and isinstance(v, (VTup, VPyList)):
@@ -381,15 +385,12 @@ def call_method(ex, base, attr, node, st):
                 o = b_frozenset(ex, st, node, [o], {})
             if not isinstance(o, VSet):
                 raise OutOfReach("set op with non-set")
-            c = z3.Const(S.fresh_name("c"), S.PyStr)
             if attr == "difference":
-                body = z3.And(base.term[c], z3.Not(o.term[c]))
+                r = S.lam(lambda c: z3.And(base.term[c], z3.Not(o.term[c])), base.term, o.term)
             elif attr == "union":
-                body = z3.Or(base.term[c], o.term[c])
+                r = S.lam(lambda c: z3.Or(base.term[c], o.term[c]), base.term, o.term)
             else:
-                body = z3.And(base.term[c], o.term[c])
-            r = z3.Const(S.fresh_name("setop"), S.CSetS)
-            st.facts.append(r == z3.Lambda([c], body))
+                r = S.lam(lambda c: z3.And(base.term[c], o.term[c]), base.term, o.term)
             ex.card_of(st, r)
             return VSet(r)
     if isinstance(base, VSeq):
@@ -522,9 +523,7 @@ def mk_ballot(ex, args, kw, st, node):
         d = sc.val if isinstance(sc, VOpt) else sc
         if not isinstance(d, VDict):
             raise OutOfReach("Ballot scores")
-        c = z3.Const(S.fresh_name("c"), S.PyStr)
-        nk = z3.Const(S.fresh_name("skeys"), S.CSetS)
-        st.facts.append(nk == z3.Lambda([c], z3.And(d.keys[c], d.vals[c] != 0)))
+        nk = S.lam(lambda c: z3.And(d.keys[c], d.vals[c] != 0), d.keys, d.vals)
         isn = (nk == S.EMPTY_SET)  # `if scores:` falsy -> None; all-zero dict -> {} stored (kept as is by pydantic)
         empty_in = d.keys == S.EMPTY_SET
         sn = z3.Or(sc.isnone, empty_in) if isinstance(sc, VOpt) else empty_in
